@@ -380,6 +380,11 @@ impl ExpressionTrait for Expression {
                 Self::BinaryExpression(r_op, _, _, _) => {
                     l_op.is_arithmetic() && (r_op.is_relational() || r_op.is_binary())
                         || l_op.is_relational() && r_op.is_binary()
+                        // relational operators have the same rank and group left to right
+                        || l_op.is_relational() && r_op.is_relational()
+                        // `*`, `/` bind tighter than MOD, and MOD groups left to right
+                        || (l_op.is_multiply_or_divide() || *l_op == Operator::Modulo)
+                            && *r_op == Operator::Modulo
                         || *l_op == Operator::And && *r_op == Operator::Or
                         || Self::flip_multiply_plus(l_op, r_op)
                         || Self::flip_plus_minus(l_op, r_op)
